@@ -59,6 +59,96 @@ EE = "_expand_entries"
 LPS = "_load_and_process_source"
 LSF = "_load_source_file"
 KEEP = (EE, LPS, LSF)
+_DEFAULT_ANCHORS = (EE, LPS, LSF)
+_PARSER_MODULES = ("csv", "json", "yaml", "tomllib")
+_MODE_WORDS = ("by_position", "combinatorial")
+
+
+def _resolve_anchors(repo: Repo) -> None:
+    """The three private helpers of the expansion are found by what they do in the call graph of the public
+    `expand_run_space`, not by how they are spelled (a private helper can be renamed any day):
+
+    * the *file loader*: the deepest module-level function through which every call of a content parser
+      (csv / json / yaml module) of the expansion is reached;
+    * the *source processor*: the outermost function between the entry point and the file loader that reads the
+      `select` / `rename` declarations (public fields of the source dataclass) of one of its parameters;
+    * the *entries expander*: the function that compares one of its own parameters with the mode words
+      (`by_position` / `combinatorial`, the public vocabulary) and (itself or through its callees) calls itertools.product.
+
+    A role that cannot be told apart (none / several candidates) falls back to the historical name; when that does not
+    exist either the later look-up ends in the documented ANALYSIS-ERROR."""
+    global EE, LPS, LSF, KEEP
+    ee, lps, lsf = _DEFAULT_ANCHORS
+    try:
+        mod = repo.module(RS)
+        funcs = {q: n for q, n in mod.defs.items() if isinstance(n, FuncNode) and "." not in q}
+    except Exception:
+        funcs = {}
+    if ERS in funcs:
+        def ext(f: ast.AST) -> str:
+            d = dotted_name(f) or ""
+            head, _, rest = d.partition(".")
+            target = getattr(mod, "imports", {}).get(head)
+            if target is None:
+                return d
+            return f"{target}.{rest}" if rest else target
+
+        direct: Dict[str, Set[str]] = {}
+        for q, n in funcs.items():
+            direct[q] = {c.func.id for c in ast.walk(n) if isinstance(c, ast.Call) and isinstance(c.func, ast.Name) and c.func.id in funcs and c.func.id != q}
+
+        def closure(q: str) -> Set[str]:
+            seen: Set[str] = set()
+            todo = [q]
+            while todo:
+                x = todo.pop()
+                for y in direct.get(x, ()):
+                    if y not in seen:
+                        seen.add(y)
+                        todo.append(y)
+            return seen
+
+        reach = closure(ERS) - {ERS}
+        clo = {q: closure(q) for q in reach}
+        # file loader
+        parsing = {q for q in reach if any(isinstance(c, ast.Call) and ext(c.func).split(".")[0] in _PARSER_MODULES for c in ast.walk(funcs[q]))}
+        cover = [q for q in reach if parsing and parsing <= (clo[q] | {q})]
+        deepest = [q for q in cover if not any(o != q and o in clo[q] for o in cover)]
+        if len(deepest) == 1:
+            lsf = deepest[0]
+        # source processor
+        if lsf in funcs:
+            def reads_decl(q: str) -> bool:
+                a = funcs[q].args
+                params = {x.arg for x in a.posonlyargs + a.args + a.kwonlyargs}
+                return any(isinstance(x, ast.Attribute) and x.attr in ("select", "rename") and isinstance(x.value, ast.Name) and x.value.id in params for x in ast.walk(funcs[q]))
+            cands = [q for q in reach if q != lsf and lsf in clo[q] and reads_decl(q)]
+            outer = [q for q in cands if not any(o != q and q in clo[o] for o in cands)]
+            if len(outer) == 1:
+                lps = outer[0]
+        # entries expander
+        def on_mode_param(q: str) -> bool:
+            a = funcs[q].args
+            params = {x.arg for x in a.posonlyargs + a.args + a.kwonlyargs}
+            for x in ast.walk(funcs[q]):
+                if isinstance(x, ast.Compare) and len(x.ops) == 1:
+                    sides = [x.left, x.comparators[0]]
+                    names = [s_ for s_ in sides if isinstance(s_, ast.Name) and s_.id in params]
+                    words = [w for s_ in sides for w in ast.walk(s_) if isinstance(w, ast.Constant) and w.value in _MODE_WORDS]
+                    if names and words:
+                        return True
+            return False
+
+        def has_product(q: str) -> bool:
+            return any(isinstance(c, ast.Call) and ext(c.func) in ("itertools.product",) for o in (clo[q] | {q}) for c in ast.walk(funcs[o]))
+        cands = [q for q in reach if q not in (lsf, lps) and on_mode_param(q)]
+        withp = [q for q in cands if has_product(q)]
+        pick = withp if withp else cands
+        outer = [q for q in pick if not any(o != q and q in clo[o] for o in pick)]
+        if len(outer) == 1:
+            ee = outer[0]
+    EE, LPS, LSF = ee, lps, lsf
+    KEEP = (EE, LPS, LSF)
 CONFIG_ERRORS = ("ConfigurationError", "PipelineConfigurationError")
 CAP_ERROR = "RunSpaceMaxRunsExceededError"
 COMPS = (ast.ListComp, ast.SetComp, ast.GeneratorExp, ast.DictComp)
@@ -1573,6 +1663,8 @@ _REWRITING_CALLS = {"re.sub", "re.subn", "unicodedata.normalize", "textwrap.dede
 _STRIPS = ("strip", "rstrip", "lstrip")
 _JSON_BLANKS = set(" \t\r\n")
 _GOOD_TAGS = {"whole", "line", "lines", "handle"}
+_NL_TRANSLATED = "nl-translated"  # side tag: the text went through universal-newline translation on the way from the file
+_NL = {_NL_TRANSLATED}
 _SPLITLINES_NOTE = "str.splitlines() also cuts at U+2028, U+2029, U+0085, VT, FF, FS, GS and RS; U+2028 / U+2029 / U+0085 are legal unescaped inside a JSON string (json.dumps(.., ensure_ascii=False) writes them) and inside a csv / yaml cell"
 
 
@@ -1639,6 +1731,23 @@ class _TextUnits:
             if kw.arg in got:
                 got[kw.arg] = kw.value
         return got
+
+    @staticmethod
+    def _translating_open(d: str, oc: Dict[str, Optional[ast.AST]]) -> bool:
+        """The opened file is read as text with universal-newline translation (newline absent / None): `\\r\\n` and a
+        bare `\\r` arrive as `\\n`.  Only what the call spells out is decided; a computed mode / newline is not judged."""
+        nl, mode = oc.get("newline"), oc.get("mode")
+        if nl is not None and not (isinstance(nl, ast.Constant) and nl.value is None):
+            return False
+        if mode is not None and not (isinstance(mode, ast.Constant) and isinstance(mode.value, str)):
+            return False
+        m = mode.value if mode is not None else "r"
+        head = d.split(".")[0]
+        if head == "codecs":
+            return False  # codecs.open reads the underlying file in binary mode: no translation
+        if head in ("gzip", "bz2", "lzma"):
+            return "t" in m
+        return "b" not in m
 
     @staticmethod
     def _lenient(errors: Optional[ast.AST]) -> bool:
@@ -1819,12 +1928,18 @@ class _TextUnits:
                 bad.append((c, f"the file is opened with errors={_u(oc['errors'])}: bytes that do not decode are dropped or replaced instead of being rejected, the parser sees text that is not in the file"))
             nl = oc["newline"]
             odd = nl is not None and not (isinstance(nl, ast.Constant) and nl.value in (None, "", "\n"))
-            return {"handle-oddnl" if odd else "handle"}, bad
+            tags = {"handle-oddnl" if odd else "handle"}
+            if self._translating_open(d, oc):
+                tags.add(_NL_TRANSLATED)
+            return tags, bad
         if isinstance(c.func, ast.Attribute):
             recv = c.func.value
             if attr in ("read_text", "read_bytes"):
                 errs = kwarg(c, "errors") or (c.args[1] if attr == "read_text" and len(c.args) > 1 else None)
                 bad = [(c, f"the file is read with errors={_u(errs)}: bytes that do not decode are dropped or replaced, the parser sees text that is not in the file")] if self._lenient(errs) else []
+                nl = kwarg(c, "newline")
+                if attr == "read_text" and (nl is None or (isinstance(nl, ast.Constant) and nl.value is None)):
+                    return {"whole", _NL_TRANSLATED}, bad  # Path.read_text opens in text mode, newline=None
                 return {"whole"}, bad
             if attr in ("read", "readline", "readlines", "__iter__", "__next__") and not d.startswith(("json.", "yaml.", "csv.")):
                 tags, bad = self.text(fid, recv, at, depth)
@@ -1834,10 +1949,10 @@ class _TextUnits:
                 if sized:
                     return {"unknown"}, bad + [(c, f"`{_u(c)}` reads a bounded part of the file: a record longer than the bound is cut")]
                 if attr == "read":
-                    return {"whole"}, bad
+                    return {"whole"} | (tags & _NL), bad
                 if "handle-oddnl" in tags:
                     bad = bad + [(c, "the file is opened with a newline= other than None / '' / '\\n': its lines no longer end at every line feed")]
-                return {"line" if attr in ("readline", "__next__") else "lines"}, bad
+                return {"line" if attr in ("readline", "__next__") else "lines"} | (tags & _NL), bad
             if attr in _STRIPS:
                 chars = c.args[0] if c.args else kwarg(c, "chars")
                 tags, bad = self.text(fid, recv, at, depth)
@@ -1900,7 +2015,10 @@ class _TextUnits:
             nl = kwarg(c, "newline")
             odd = nl is not None and not (isinstance(nl, ast.Constant) and nl.value in (None, "", "\n"))
             if tags & {"whole", "handle", "handle-oddnl"}:
-                return {"handle-oddnl" if odd or "handle-oddnl" in tags else "handle"}, bad
+                out = {"handle-oddnl" if odd or "handle-oddnl" in tags else "handle"} | (tags & _NL)
+                if d == "io.TextIOWrapper" and (nl is None or (isinstance(nl, ast.Constant) and nl.value is None)):
+                    out.add(_NL_TRANSLATED)  # the wrapper decodes a binary stream with newline=None
+                return out, bad
             return self._derived([(tags, bad)])
         if d == "enumerate" and c.args:
             return self._derived([self.text(fid, c.args[0], at, depth)])
@@ -1944,7 +2062,7 @@ class _TextUnits:
         return self._derived([self.text(fid, k.value if isinstance(k, ast.Starred) else k, at, depth) for k in kids])
 
     # ---- the rule -------------------------------------------------------------------------------
-    def judge(self, R: Report, rule: str) -> None:
+    def judge(self, R: Report, rule: str, rule_nl: Optional[str] = None) -> None:
         for fid, (m, node, fn, F) in self.ctx.items():
             for c in [n for n in _walk_fn(fn) if isinstance(n, ast.Call)]:
                 d = self.ext(fid, c.func) or ""
@@ -1967,6 +2085,12 @@ class _TextUnits:
                     raise AnalysisError(f"{name}: the text handed to `{norm(c)[:60]}` (line {getattr(c, 'lineno', 0)}) comes from a source file through an operation this analysis does not classify")
                 elif tags & _GOOD_TAGS or "handle-oddnl" in tags:
                     R.ok(rule, m.rel, name, label)
+                if rule_nl is not None and d.startswith("csv.") and not bad and "unknown" not in tags and (tags & _GOOD_TAGS or "handle-oddnl" in tags):
+                    R.check(
+                        _NL_TRANSLATED not in tags, rule_nl, m.rel, name, label,
+                        "the csv parser is handed text that went through universal-newline translation (file opened / read as text without newline=''): a quoted cell holding `\\r\\n` or a bare `\\r` (multi-line cells as Excel / Windows tools write them) is loaded as `\\n` - the runs carry a value the source does not declare; the csv module's contract is a file opened with newline=''",
+                        getattr(c, "lineno", 0),
+                    )
 
 
 def _record_units(repo: Repo, R: Report) -> None:
@@ -1975,7 +2099,12 @@ def _record_units(repo: Repo, R: Report) -> None:
         "the text handed to a parser of source content (json / yaml / csv) in the call graph of expand_run_space is the file's own text as decoded strictly - the whole file, the open file, or one record of it as delimited by the line feed (iterating the open file, readline(s), split('\\n')), at most stripped of blanks; nothing on the way cuts it elsewhere (str.splitlines(), split() at blanks, slicing, bounded reads), rewrites it (replace, case folding, re.sub, lenient decoding) or reorders the records",
         3,
     )
-    _TextUnits(repo).judge(R, rule)
+    rule_nl = R.rule(
+        "C08-D1-csv-untranslated",
+        "csv content reaches the csv parser as written in the file: every way the text handed to csv.reader / csv.DictReader in the call graph of expand_run_space comes from the file leaves line ends alone (text mode with newline='' / '\\n', a binary stream wrapped with newline='', decoded bytes) - with the default newline=None Python turns `\\r\\n` and `\\r` into `\\n` before the parser sees them, and a quoted multi-line cell is loaded with another value than the file declares (the line terminator between records is the parser's own business)",
+        1,
+    )
+    _TextUnits(repo).judge(R, rule, rule_nl)
 
 
 # ---------------------------------------------------------------------------------------------
@@ -2733,6 +2862,7 @@ def read_errors_rule(repo: Repo, R: Report, library_view: bool = True) -> None:
 
 
 def run(repo: Repo, R: Report) -> None:
+    _resolve_anchors(repo)
     mod = repo.module(RS)
     opts = dict(keep=KEEP, copyprop="all", loops=True)
     fn = canon_dicts(nfunc(repo, RS, ERS, **opts))
@@ -3890,7 +4020,9 @@ def run(repo: Repo, R: Report) -> None:
             if comp_binding(e) is not None:
                 return []
             for d in F.defs(e.id, at):
-                k = (e.id, id(d[-1]))
+                # one definition can feed the size twice in different roles (`max(ls) if .. else prod(ls)`): the
+                # role (multiplied or not, conditional branches taken) is part of what has been visited
+                k = (e.id, id(d[-1]), product, tuple((id(t), b) for t, b in conds))
                 if k in visited:
                     continue
                 visited.add(k)
@@ -4041,6 +4173,49 @@ def run(repo: Repo, R: Report) -> None:
                 out.append((c, side))
         return out
 
+    def _eq_const(e: ast.AST) -> Optional[Tuple[str, object]]:
+        if isinstance(e, ast.Compare) and len(e.ops) == 1 and isinstance(e.ops[0], ast.Eq):
+            l, r = e.left, e.comparators[0]
+            if isinstance(l, ast.Constant):
+                l, r = r, l
+            if isinstance(r, ast.Constant) and not isinstance(l, ast.Constant):
+                return _u(l), r.value
+        return None
+
+    def excluded_by(c: ast.Call, st: ast.AST, conds: Sequence[Tuple[ast.AST, bool]]) -> bool:
+        """The expansion call *c* cannot run in an iteration in which the lengths multiplied in statement *st* enter
+        the size under the conditional-expression branches *conds*: it sits behind a branch on the same test (same
+        text, operands with the same reaching definitions; `x == 'a'` is also known false where `x == 'b'` holds)
+        taken the other way."""
+        cid = F.nid(c)
+        for test, taken in conds:
+            text, ec = _u(test), _eq_const(test)
+            names = {x.id for x in ast.walk(test) if isinstance(x, ast.Name)}
+            try:
+                if any([d[-1] for d in F.defs(nm, st)] != [d[-1] for d in F.defs(nm, c)] for nm in names):
+                    continue
+            except AnalysisError:
+                continue
+
+            def atom(e: ast.AST, text=text, ec=ec) -> Optional[bool]:
+                if _u(e) == text:
+                    return True
+                e2 = _eq_const(e)
+                if ec is not None and e2 is not None and e2[0] == ec[0] and e2[1] != ec[1]:
+                    return False
+                return None
+
+            want = "F" if taken else "T"  # edges on which the test has the value the measure does not have
+            edges = []
+            for n in g.nodes:
+                if n.kind == "if" and n.part is not None:
+                    hold = edges_guaranteeing(n.part, atom)          # test known true
+                    fail = edges_guaranteeing(n.part, lambda e: (None if atom(e) is None else not atom(e)))  # test known false
+                    edges.extend((n.id, lab) for lab in (hold if want == "T" else fail))
+            if edges and F.dominated([cid], edges)[0]:
+                return True
+        return False
+
     def judge_size(size: Optional[ast.AST], at: ast.AST, gid: int, line: int) -> None:
         if size is None:
             return
@@ -4050,6 +4225,8 @@ def run(repo: Repo, R: Report) -> None:
             if not sides:
                 continue
             for c, side in same_iteration_expansions(gid):
+                if side in sides and excluded_by(c, st, conds):
+                    continue
                 if side in sides and not expanded_combinatorially(c, gid, conds, F.nid(st)):
                     which = "source columns" if side == "src" else "inline context lists"
                     R.violation(r_sz, RS, ERS, label, f"the size compared with max_runs multiplies the lengths of all {which} (`len({_u(x)})` in `{norm(stmt_of(x))[:70]}`), but `{_u(c)[:70]}` may expand that side by position (one run per row, not the product of its columns): a specification whose documented expansion is within max_runs is rejected with the max-runs error", line)
